@@ -153,7 +153,7 @@ Qed.
 
 Lemma scanner_terms_in L t :
   In t (scanner_terms L) <-> In t L /\ ~ In (tname t) (embedded L).
-Proof. unfold Lexer.scanner_terms. now rewrite filter_In, negb_true_iff, mem_string_false. Qed.
+Proof. unfold Lexer.scanner_terms. cbv zeta. now rewrite filter_In, negb_true_iff, mem_string_false. Qed.
 
 (* regexp terminals stay in the scanner *)
 Lemma regexp_in_scanner L R : uniq_names L -> In R L -> tre R = true -> In R (scanner_terms L).
@@ -346,7 +346,7 @@ Proof.
   destruct (first_in_sorted _ _ _ _ Hsorted EA) as (HX & HmX & HfirstA).
   destruct (in_dec string_dec (tname X) (embedded st)) as [Hemb|Hnot].
   2:{ (* the winner stays in the scanner *)
-      unfold Lexer.scanner_terms.
+      unfold Lexer.scanner_terms. cbv zeta.
       rewrite (first_some_filter _ _ _ _ _ EA); [reflexivity|].
       apply negb_true_iff. now apply mem_string_false. }
   (* the winner K := X is an embedded keyword of some regexp R *)
